@@ -188,11 +188,47 @@ def r172(ctx, repo):
             if tgt in feeding and txt(s.value) not in reach:
                 reach += " ; " + txt(s.value)
                 feeding |= names_in(s.value)
+    # the data type must enter the key in a form that distinguishes every
+    # dtype (byte order included): dtype.str / descr / str() / repr()
+    dt_forms = []
+    for src_ in reach.split(" ; "):
+        try:
+            tree_ = ast.parse(src_, mode="eval")
+        except SyntaxError:
+            continue
+        for n_ in ast.walk(tree_):
+            if isinstance(n_, ast.Attribute) and n_.attr == "dtype" \
+                    and txt(n_.value) == arg:
+                dt_forms.append((n_, tree_))
+    from ..core import link as _link
+    lossy = None
+    for n_, tree_ in dt_forms:
+        _link(tree_)
+        par = getattr(n_, "parent", None)
+        if isinstance(par, ast.Attribute):
+            if par.attr in ("str", "descr"):
+                continue
+            if par.attr in ("name", "kind", "char", "itemsize", "type",
+                            "num", "alignment"):
+                lossy = par
+                continue
+            raise AnalysisError(f"Cache._update_hash: dtype attribute "
+                                f"`{par.attr}` not classified")
+        # formatted / str() / repr() of the dtype object
+        continue
     for need, why in ((f"{arg}.dtype", "data type"),
                       (f"{arg}.shape", "shape")):
         ok = need in reach
+        if why == "data type" and ok and lossy is not None and not any(
+                isinstance(getattr(n_, "parent", None), ast.Attribute)
+                and n_.parent.attr in ("str", "descr") or not isinstance(
+                    getattr(n_, "parent", None), ast.Attribute)
+                for n_, _t in dt_forms):
+            ok = False
         ctx.ob("R17.2", ok, f"the array {why} is part of the key" if ok else
-               f"the array {why} is not part of the key: arguments that "
+               f"the array {why} is not part of the key (or only in a form "
+               f"that does not distinguish all of them, e.g. dtype.name "
+               f"drops the byte order): arguments that "
                f"differ only in {why} share an entry", node=nd,
                label=f"array key covers {why}")
     ok = ("view(" in reach or "tobytes(" in reach) and arg in reach
@@ -742,6 +778,8 @@ def run(ctx):
 
 
 MUTANTS = [
+    ("dtype enters the key by name only (seeded C17_9)", CA,
+     ("{arg.dtype.str}", "{arg.dtype.name}"), "R17.2"),
     ("kw values not hashed", CA,
      ("            self._update_hash(kwargs[k])\n", ""), "R17.1"),
     ("kw names not hashed", CA,
